@@ -34,6 +34,11 @@ def refinement(*conditions: ConditionType) -> SymbolicExpression[T]:
     new_conditions_root = ExceptIf(SymbolicExpression._current_parent_(), new_branch)
     new_branch._node_.weight = RDREdge.Refinement
     new_conditions_root._parent_ = prev_parent
+    if isinstance(prev_parent, BinaryOperator):
+        if prev_parent.left is current_node:
+            prev_parent.left = new_conditions_root
+        else:
+            prev_parent.right = new_conditions_root
     return new_conditions_root.right
 
 
@@ -79,9 +84,9 @@ def alternative_or_next(
     """
     new_branch = chained_logic(AND, *conditions)
     current_node = SymbolicExpression._current_parent_()
-    if isinstance(current_node._parent_, (Alternative, Next)):
-        current_node = current_node._parent_
-    elif (
+    # climb to the root of the rule that the current node belongs to: over every alternative/next already chained
+    # to it and over every refinement it is the base (left operand) of
+    while isinstance(current_node._parent_, (Alternative, Next)) or (
         isinstance(current_node._parent_, ExceptIf)
         and current_node is current_node._parent_.left
     ):
